@@ -62,6 +62,13 @@ def pair(cell):
             out.append({'msg': f'{m} {un} -> {vn}: got {got!r}, SI definition gives {exp!r} (rel err {err / scale if scale else err:.3g} > 1e-6)',
                         'key': None, 'magnitude': m})
             continue
+        # the same conversion by re-displaying the object after it has been read once (read, convert in place, read)
+        q2 = u(m)
+        first = q2.unit_value
+        str(q2)
+        q2 << v
+        if q2.unit_value != got or first != (u(m) >> u):
+            out.append({'msg': f'{m} {un}: read as {first!r} {un}, re-displayed in {vn}, then reads {q2.unit_value!r} instead of {got!r}', 'key': None, 'magnitude': m})
         # round trip u -> v -> u
         back = v(got) >> u
         inter = max(abs(m), abs(got), abs(q.raw_value), abs(v(got).raw_value), abs(back))
